@@ -102,10 +102,88 @@ func counterAgreement(c *Ctx, rule string) {
 			block     *ast.BlockStmt
 		}
 		var stores []store
+		// rowOf: a local that stands for one row of a table — fetched as v(, ok) := M[k], created with make and stored back
+		// as M[k] = v when absent — with k unchanged between the fetch and the use
+		rowOf := func(root *ast.BlockStmt, v *ast.Ident, use token.Pos) *ast.IndexExpr {
+			ob := info.ObjectOf(v)
+			var fetch *ast.IndexExpr
+			var fetchAt token.Pos
+			okAll, storedBack := true, false
+			ast.Inspect(root, func(n ast.Node) bool {
+				as, ok := n.(*ast.AssignStmt)
+				if !ok {
+					return true
+				}
+				for i, l := range as.Lhs {
+					if id, ok := ast.Unparen(l).(*ast.Ident); ok && info.ObjectOf(id) == ob {
+						switch r := ast.Unparen(as.Rhs[min(i, len(as.Rhs)-1)]).(type) {
+						case *ast.IndexExpr:
+							if i == 0 && (fetch == nil || types.ExprString(fetch) == types.ExprString(r)) {
+								fetch, fetchAt = r, as.Pos()
+							} else {
+								okAll = false
+							}
+						case *ast.CallExpr:
+							if fid, isID := r.Fun.(*ast.Ident); !isID || fid.Name != "make" {
+								okAll = false
+							}
+						default:
+							okAll = false
+						}
+					}
+					if ix, ok := ast.Unparen(l).(*ast.IndexExpr); ok && len(as.Lhs) == len(as.Rhs) {
+						if rid, ok := ast.Unparen(as.Rhs[i]).(*ast.Ident); ok && info.ObjectOf(rid) == ob && fetch != nil && types.ExprString(ix) == types.ExprString(fetch) {
+							storedBack = true
+						}
+					}
+				}
+				return true
+			})
+			if fetch == nil || !okAll || !storedBack || fetchAt > use {
+				return nil
+			}
+			// the key is not changed between the fetch and the use
+			changed := false
+			kid, isID := ast.Unparen(fetch.Index).(*ast.Ident)
+			if !isID {
+				return nil
+			}
+			ast.Inspect(root, func(n ast.Node) bool {
+				if n == nil || n.Pos() < fetchAt || n.Pos() > use {
+					return true
+				}
+				switch x := n.(type) {
+				case *ast.IncDecStmt:
+					if id, ok := ast.Unparen(x.X).(*ast.Ident); ok && info.ObjectOf(id) == info.ObjectOf(kid) {
+						changed = true
+					}
+				case *ast.AssignStmt:
+					for _, l := range x.Lhs {
+						if id, ok := ast.Unparen(l).(*ast.Ident); ok && info.ObjectOf(id) == info.ObjectOf(kid) && x.Pos() != fetchAt {
+							changed = true
+						}
+					}
+				}
+				return true
+			})
+			if changed {
+				return nil
+			}
+			return fetch
+		}
+		var visitRoot *ast.BlockStmt
 		var visit func(b *ast.BlockStmt)
 		visit = func(b *ast.BlockStmt) {
 			for _, st := range b.List {
 				if as, ok := st.(*ast.AssignStmt); ok && len(as.Lhs) == 1 && len(as.Rhs) == 1 {
+					// a store through a row local: srcCols[srcCol] = … is sm.SourceLinesToTarget[srcLine][srcCol] = …
+					if ix, ok := as.Lhs[0].(*ast.IndexExpr); ok {
+						if vid, ok := ast.Unparen(ix.X).(*ast.Ident); ok && visitRoot != nil {
+							if row := rowOf(visitRoot, vid, as.Pos()); row != nil {
+								as = &ast.AssignStmt{Lhs: []ast.Expr{&ast.IndexExpr{X: row, Lbrack: ix.Lbrack, Index: ix.Index, Rbrack: ix.Rbrack}}, TokPos: as.TokPos, Tok: as.Tok, Rhs: as.Rhs}
+							}
+						}
+					}
 					if ix, ok := as.Lhs[0].(*ast.IndexExpr); ok {
 						if ix2, ok := ix.X.(*ast.IndexExpr); ok {
 							if call, ok := as.Rhs[0].(*ast.CallExpr); ok && len(call.Args) == 3 {
@@ -168,6 +246,7 @@ func counterAgreement(c *Ctx, rule string) {
 			})
 		}
 		for _, u := range unit {
+			visitRoot = u.Body
 			visit(u.Body)
 		}
 		mirrored := len(stores) >= 2
